@@ -1,6 +1,13 @@
 import ChessVerif.Props.C03
 open Chess.Props.C03
-#print axioms state_classify
-#print axioms inCheck_def
+#print axioms inCheck_iff
+#print axioms mem_legalMoves_iff
+#print axioms isEmpty_iff
+#print axioms state_eq
 #print axioms parse_pinInfo
+#print axioms checkers_meaning
 #print axioms pinInfo_determined
+#print axioms move_pinInfo
+#print axioms inCheck_iff_reachable
+#print axioms state_eq_reachable
+#print axioms rebuilt_eq_reachable
